@@ -52,14 +52,22 @@ def build_harness(race=False):
         return _built[key]
     out = os.path.join(sub("bin"), "wconf" + ("-race" if race else ""))
     env = dict(os.environ, **GOENV)
-    if not os.path.exists(os.path.join(HARNESS, "go.sum")):
-        shutil.copy(os.path.join(REPO, "go.sum"), os.path.join(HARNESS, "go.sum"))
+    hdir = HARNESS
+    if os.path.realpath(REPO) != "/repo":
+        # development aid: build against a scratch worktree of wrgl (VERIF_REPO) without touching /repo
+        hdir = os.path.join(scratch(), "harness-src")
+        if not os.path.isdir(hdir):
+            shutil.copytree(HARNESS, hdir)
+            gm = open(os.path.join(hdir, "go.mod")).read().replace("=> /repo", "=> " + os.path.realpath(REPO))
+            open(os.path.join(hdir, "go.mod"), "w").write(gm)
+    if not os.path.exists(os.path.join(hdir, "go.sum")):
+        shutil.copy(os.path.join(REPO, "go.sum"), os.path.join(hdir, "go.sum"))
     cmd = ["go", "build", "-tags", "verif", "-o", out]
     if race:
         cmd.append("-race")
     cmd.append("./cmd/wconf")
     t = time.time()
-    p = subprocess.run(cmd, cwd=HARNESS, env=env, capture_output=True, text=True)
+    p = subprocess.run(cmd, cwd=hdir, env=env, capture_output=True, text=True)
     if p.returncode != 0:
         raise Inconclusive("harness build failed:\n" + p.stdout + p.stderr)
     log("harness built in %.1fs" % (time.time() - t))
@@ -433,11 +441,16 @@ def validate_traces(module, cfg, trace_path, timeout=1800, heap=None, max_reject
 # --------------------------------------------------------------------------- verdicts
 
 def load_known():
-    p = os.path.join(VERIF, "known_findings.json")
-    if not os.path.exists(p):
-        return []
-    with open(p) as f:
-        return json.load(f).get("findings", [])
+    out = []
+    paths = [os.path.join(VERIF, "known_findings.json")]
+    d = os.path.join(VERIF, "known_findings.d")
+    if os.path.isdir(d):
+        paths += sorted(os.path.join(d, f) for f in os.listdir(d) if f.endswith(".json"))
+    for p in paths:
+        if os.path.exists(p):
+            with open(p) as f:
+                out += json.load(f).get("findings", [])
+    return out
 
 
 class Verdict:
@@ -451,6 +464,10 @@ class Verdict:
         self.known_defs = [k for k in load_known() if k.get("property") == prop and k.get("status") == "open"]
         self.t0 = time.time()
         self.notes = []
+        os.makedirs(REPLAYS, exist_ok=True)
+        for f in os.listdir(REPLAYS):
+            if f.startswith(prop + "-"):
+                os.remove(os.path.join(REPLAYS, f))
 
     def _match_known(self, sig, scenario):
         for k in self.known_defs:
